@@ -6,12 +6,14 @@ import (
 	"math/big"
 	"net/http"
 	"net/url"
+	"sort"
 	"testing"
 	"time"
 
 	"github.com/vulcand/oxy/v2/internal/holsterv4/clock"
 	"github.com/vulcand/oxy/v2/roundrobin"
 	"github.com/vulcand/oxy/v2/zzverif/simkit"
+	"github.com/vulcand/oxy/v2/zzverif/simrt"
 	"pgregory.net/rapid"
 )
 
@@ -71,6 +73,7 @@ type c10World struct {
 	adjustments  int
 	opportun     int
 	capHits      int
+	overlaps     int
 }
 
 func (w *c10World) now() time.Duration { return clock.Now().UTC().Sub(w.start) }
@@ -217,6 +220,97 @@ func (w *c10World) afterAdmin(what string, changed bool) {
 	w.lastChange = w.now()
 	w.outlierSince, w.firstMiss = -1, -1
 	w.equalSince, w.equalChanges, w.equalReached = w.scripted && w.allEqualReady(), 0, false
+}
+
+// overlap: an administration call (removal or re-weighting of a member) arrives while a request is being served; the
+// two run as tasks of a scheduler that decides, lock operation by lock operation, who goes on. Whatever the order, once
+// both have returned the pool has the new membership, and the weights are the configured ones - or, if the request's
+// adjustment came after the change, one adjustment away from them: in range, and no outlier with a larger share.
+func (w *c10World) overlap(m member, remove bool, wt int) {
+	sim := simrt.New(w.r.Chooser())
+	sim.Fine = true
+	u := mustURL(m.str)
+	rec := simkit.NewRecorder()
+	req := (&http.Request{Method: "GET", URL: &url.URL{Path: "/"}, Header: http.Header{}, RemoteAddr: "10.0.0.1:1"}).WithContext(context.WithValue(context.Background(), ctxKey{}, (func(string) int)(nil)))
+	var aerr error
+	what := fmt.Sprintf("upsert %s w=%d", m.str, wt)
+	if remove {
+		what = "remove " + m.str
+	}
+	tR := sim.Spawn("request", func() { w.rb.ServeHTTP(rec, req) })
+	tA := sim.Spawn("admin", func() {
+		if remove {
+			aerr = w.rb.RemoveServer(u)
+		} else {
+			w.pending = m.key
+			aerr = w.rb.UpsertServer(u, roundrobin.Weight(wt))
+		}
+	})
+	sim.Quiesce()
+	dead := sim.Deadlocked()
+	pR, pA := tR.Panic, tA.Panic
+	sim.Shutdown()
+	w.overlaps++
+	if pR != nil || pA != nil {
+		w.fail("panic", "%s while a request was being served: request task %v, administration task %v", what, pR, pA)
+	}
+	if dead {
+		w.fail("deadlock", "%s while a request was being served: neither can go on", what)
+	}
+	if aerr != nil {
+		w.fail("upsert-failed", "%s while a request was being served: %v", what, aerr)
+	}
+	if remove {
+		w.model.remove(u)
+		delete(w.rating, m.key)
+		delete(w.notReady, m.key)
+	} else {
+		w.model.upsert(u, true, wt)
+	}
+	var got []string
+	for _, su := range w.rb.Servers() {
+		got = append(got, keyOf(su))
+	}
+	sort.Strings(got)
+	var want []string
+	for _, mm := range w.model.m {
+		want = append(want, mm.key)
+	}
+	sort.Strings(want)
+	if fmt.Sprint(got) != fmt.Sprint(want) {
+		w.fail("overlap-membership", "%s while a request was being served: both have returned and the pool is %v, configured %v", what, got, want)
+	}
+	eff := w.snapshot()
+	w.checkRange(eff, "after "+what+" overlapping a request")
+	configured := map[string]int{}
+	same := true
+	for _, mm := range w.model.m {
+		configured[mm.key] = mm.weight
+		same = same && eff[mm.key] == mm.weight
+	}
+	w.note("%s overlapping a request -> effective %v", what, eff)
+	w.lastAdjust = -1
+	if !same {
+		// the adjustment of the overlapped request came after the change, and started from the configured weights
+		w.lastAdjust = w.now()
+		if w.scripted {
+			sb, se := sumW(configured), sumW(eff)
+			for _, k := range w.clearCut() {
+				l := new(big.Int).Mul(big.NewInt(int64(eff[k])), big.NewInt(sb))
+				rr := new(big.Int).Mul(big.NewInt(int64(configured[k])), big.NewInt(se))
+				if l.Cmp(rr) > 0 {
+					w.fail("outlier-gained", "after %s overlapping a request, server %s rated %.2f (others <= 0.05) holds %d/%d of the traffic, configured %d/%d", what, k, w.rating[k], eff[k], se, configured[k], sb)
+				}
+			}
+		}
+	}
+	w.eff = eff
+	w.lastChange = w.now()
+	w.outlierSince, w.firstMiss = -1, -1
+	w.equalSince, w.equalChanges, w.equalReached = w.scripted && w.allEqualReady(), 0, false
+	if w.equalSince && w.proportional(eff) {
+		w.equalReached = true
+	}
 }
 
 func (w *c10World) request(status func(key string) int) {
@@ -486,13 +580,16 @@ func c10prop(r *simkit.Run) {
 	// the operation mix is drawn per run: "episodes" are long quiet stretches (an outlier appears, is pushed
 	// down over many back-off intervals, recovers, weights converge back) with little else going on
 	opMix := []string{"req", "req", "req", "req", "req+backoff", "req+backoff", "advance", "ratings", "ratings", "admin"}
+	if rapid.IntRange(0, 2).Draw(rt, "administration-overlaps-requests") == 0 {
+		opMix = append(opMix, "overlap", "overlap+backoff")
+	}
 	if rapid.IntRange(0, 2).Draw(rt, "episodes") == 0 {
 		opMix = []string{"req+backoff", "req+backoff", "req+backoff", "req+backoff", "req+backoff", "req+backoff", "req+backoff", "req", "req", "req", "advance", "ratings"}
 		r.Probe("episode-run")
 	}
 	nops := rapid.IntRange(10, deep(200, 800)).Draw(rt, "ops")
 	for i := 0; i < nops; i++ {
-		switch rapid.SampledFrom(opMix).Draw(rt, "op") {
+		switch op := rapid.SampledFrom(opMix).Draw(rt, "op"); op {
 		case "req":
 			w.request(nil)
 		case "req+backoff":
@@ -500,6 +597,14 @@ func c10prop(r *simkit.Run) {
 			clock.Advance(d)
 			r.SimTime(d)
 			w.request(nil)
+		case "overlap", "overlap+backoff":
+			if len(w.model.m) >= 2 {
+				if op == "overlap+backoff" {
+					clock.Advance(w.backoff + 1)
+					r.SimTime(w.backoff + 1)
+				}
+				w.overlap(w.model.m[rapid.IntRange(0, len(w.model.m)-1).Draw(rt, "which")], rapid.Bool().Draw(rt, "overlap-removes"), drawWeight())
+			}
 		case "advance":
 			var d time.Duration
 			switch rapid.IntRange(0, 3).Draw(rt, "adv") {
@@ -580,6 +685,7 @@ func c10prop(r *simkit.Run) {
 	r.ProbeN("adjustments", w.adjustments)
 	r.ProbeN("outlier-opportunities", w.opportun)
 	r.ProbeN("weight-at-cap", w.capHits)
+	r.ProbeN("administration-call-overlapping-a-request", w.overlaps)
 	if w.equalReached && w.equalChanges > 0 {
 		r.Probe("converged-after-adjustments")
 	}
